@@ -27,8 +27,8 @@ RULE = (
 )
 ASSUMPTIONS = ["whole days elapsed are computed on instants (UTC), whatever the written time zones", "income fractions are always short-term"]
 SETTINGS: Dict[str, Dict[str, Any]] = {
-    "quick": {"cases": 5000, "cli_cases": 40, "budget_s": 45, "minimums": {"fractions": 10000, "nontrivial": 2000, "near_threshold_both_sides": 1500, "cli_runs": 5}},
-    "thorough": {"cases": 200000, "cli_cases": 150, "budget_s": 300, "minimums": {"fractions": 400000, "nontrivial": 80000, "near_threshold_both_sides": 50000, "cli_runs": 100}},
+    "quick": {"cases": 5000, "cli_cases": 40, "budget_s": 45, "minimums": {"corpus_runs": 100, "fractions": 10000, "nontrivial": 2000, "near_threshold_both_sides": 1500, "cli_runs": 5}},
+    "thorough": {"cases": 200000, "cli_cases": 150, "budget_s": 300, "minimums": {"corpus_runs": 100, "fractions": 400000, "nontrivial": 80000, "near_threshold_both_sides": 50000, "cli_runs": 100}},
 }
 
 COUNTRIES: List[Tuple[str, Optional[int], Optional[int]]] = [
@@ -122,6 +122,9 @@ def _observe(ctx: Any, ip: Any, hist: Dict[str, Any], country: str, env_value: O
 
 
 def run_shard(ctx: Any) -> None:
+    from rpv.checks import corpus_slice
+
+    corpus_slice.run(ctx, PROPERTY_ID)  # the repository's own example inputs, every method and the config's schedule
     ip = get_ip(ctx)
     settings = SETTINGS[ctx.tier]
     share = ctx.share(settings["cases"])
@@ -145,6 +148,11 @@ def run_shard(ctx: Any) -> None:
 
 
 def replay(ctx: Any, case: Dict[str, Any]) -> None:
+    if case.get("corpus"):
+        from rpv.checks import corpus_slice
+
+        corpus_slice.replay(ctx, PROPERTY_ID, case)
+        return
     if case.get("cli"):
         from rpv.checks import cli_slices
 
